@@ -17,6 +17,10 @@ import (
 func init() { register("C16", runC16, replayC16, 200) }
 
 func boundsCheck(run *core.Run, txt string, how string) {
+	run.Guard(&core.Case{Kind: "bounds", DSL: txt, Extra: map[string]string{"how": how}}, func() { boundsCheck1(run, txt, how) })
+}
+
+func boundsCheck1(run *core.Run, txt string, how string) {
 	_, err := transformer.TransformDSLToProto(txt)
 	run.Eval(1)
 	if err == nil {
@@ -49,7 +53,7 @@ func runC16(run *core.Run) {
 		var base string
 		if r.Intn(3) == 0 {
 			g := &gen.DSLGen{R: r}
-			base = g.Doc(r.Intn(4) == 0).Render(&gen.Layout{R: r, Wild: true, Comments: true, CRLF: r.Intn(3) == 0})
+			base = g.Doc(r.Intn(4) == 0).Render(&gen.Layout{R: r, Wild: true, Comments: true, CRLF: r.Intn(3) == 0, Mixed: r.Intn(4) == 0})
 		} else {
 			base = corpus[r.Intn(len(corpus))]
 		}
